@@ -1,10 +1,126 @@
-(* C17 — exported theorems only: each is closed by [exact] and followed by Print Assumptions. *)
+(* C17 — exported theorems only: each is closed by [exact] and followed by Print Assumptions.
+   [fx] is the variant of the controller (Model.recheck_same_node; true = /repo since 025e424). *)
 From Coq Require Import List ZArith Bool.
-From Verif Require Import C17.Model C17.Spec C17.Proofs.
+From Verif Require Import C17.Model C17.Spec C17.Codec C17.Proofs_trace C17.Proofs_spec C17.Proofs C17.Proofs_codec.
 Import ListNotations.
 Open Scope Z_scope.
 
-Theorem c17_terminal_absorbing_step : forall fx s f,
+(* ---- one reconcile: ANY persisted job, ANY environment, ANY fault bits ---- *)
+
+(* reservation-first mode: an eviction call is only issued while the reservation exists, is not
+   pending, not expired, is scheduled (or its preemption is complete), is not consumed by a pod, and
+   sits on another node than the pod *)
+Theorem c17_evict_guard : forall s f x,
+  direct (sj s) = false -> In x (snd (reconcile true s f)) -> is_evict x = true ->
+  secured (est x) /\ other_node (est x).
+Proof. exact reconcile_evict_guard. Qed.
+Print Assumptions c17_evict_guard.
+
+(* succeeded / failed / aborted: the reconcile is the identity and issues no call at all *)
+Theorem c17_terminal_absorbing : forall fx s f,
   terminal (phase (sj s)) = true -> reconcile fx s f = (s, []).
 Proof. exact reconcile_terminal. Qed.
-Print Assumptions c17_terminal_absorbing_step.
+Print Assumptions c17_terminal_absorbing.
+
+(* a reconcile that fails the job for timeout leaves no reservation behind (job with a ReservationRef) *)
+Theorem c17_timeout_deletes_reservation : forall fx s f,
+  timed_out (sj s) (sj (fst (reconcile fx s f))) = true -> rref (sj s) = true ->
+  sr (fst (reconcile fx s f)) = None.
+Proof. exact reconcile_timeout. Qed.
+Print Assumptions c17_timeout_deletes_reservation.
+
+(* without API errors: at most one eviction call per reconcile, none once an eviction is recorded in
+   the job status, and the record is never lost *)
+Theorem c17_reconcile_evicts_once : forall fx s f, existsb (fun b => b) f = false ->
+  (length (filter is_evict (snd (reconcile fx s f))) <= 1)%nat
+  /\ (cEv (sj s) = C_TRUE \/ cEv (sj s) = C_FALSE ->
+      filter is_evict (snd (reconcile fx s f)) = []
+      /\ (cEv (sj (fst (reconcile fx s f))) = C_TRUE \/ cEv (sj (fst (reconcile fx s f))) = C_FALSE)).
+Proof. exact reconcile_no_faults_once. Qed.
+Print Assumptions c17_reconcile_evicts_once.
+
+(* ---- all histories of reconciles, environment events and faults, from ANY start state ---- *)
+
+Theorem c17_trace_evict_guard : forall fx ops s, direct (sj s) = false ->
+  forall o e, In o (obs_from fx s ops) -> In e (o_effs o) -> is_evict e = true ->
+  secured (est e) /\ (fx = true -> other_node (est e)).
+Proof. exact trace_guard. Qed.
+Print Assumptions c17_trace_evict_guard.
+
+Theorem c17_trace_terminal_absorbing : forall fx ops s, absorbing (sj s) (obs_from fx s ops).
+Proof. exact trace_absorbing. Qed.
+Print Assumptions c17_trace_terminal_absorbing.
+
+Theorem c17_trace_timeout_deletes : forall fx ops s, timeout_deletes (sj s) (obs_from fx s ops).
+Proof. exact trace_timeout. Qed.
+Print Assumptions c17_trace_timeout_deletes.
+
+(* with no API errors anywhere in the history the job evicts at most once *)
+Theorem c17_evict_at_most_once : forall fx ops s, at_most_once ops (obs_from fx s ops).
+Proof. exact trace_once. Qed.
+Print Assumptions c17_evict_at_most_once.
+
+(* ---- the property, over the same definitions Extract.v runs ---- *)
+
+Theorem c17_prop_code_spec : forall j0 ops obs, prop_code j0 ops obs = 0 <-> C17_holds j0 ops obs.
+Proof. exact prop_code_spec. Qed.
+Print Assumptions c17_prop_code_spec.
+
+Theorem c17_holds_all_histories : forall j0 ops, C17_holds j0 ops (observe_fx true j0 ops).
+Proof. exact holds_all_histories. Qed.
+Print Assumptions c17_holds_all_histories.
+
+(* [observe] is the variant Extract.v runs: breaks if Model.recheck_same_node is flipped back *)
+Theorem c17_prop_code_model : forall j0 ops, prop_code j0 ops (observe j0 ops) = 0.
+Proof. exact prop_code_model. Qed.
+Print Assumptions c17_prop_code_model.
+
+(* the two functions the driver runs (Extract.v extracts exactly these): on EVERY input the property's
+   decision procedure accepts the model's own observable, so any property failure reported by the
+   check comes from the implementation's observable *)
+Theorem c17_wire_model : forall inp, prop_case inp (run_case inp) = 0.
+Proof. exact wire_model. Qed.
+Print Assumptions c17_wire_model.
+
+(* ---- regression record of the finding repaired by 025e424 (variant argument false) ---- *)
+
+Theorem c17_old_other_node_refuted :
+  exists inp, let '(j0, ops) := decode inp in
+    prop_code j0 ops (observe_fx false j0 ops) = 7 /\ prop_code j0 ops (observe_fx true j0 ops) = 0.
+Proof. exact old_other_node_refuted. Qed.
+Print Assumptions c17_old_other_node_refuted.
+
+(* every violation of the old variant is a same-node eviction in a reconcile that started with the
+   same-node check already cached in the job status *)
+Theorem c17_old_violations_are_the_cached_shape : forall j0 ops,
+  prop_code j0 ops (observe_fx false j0 ops) = 0 \/ finding_code j0 ops (observe_fx false j0 ops) = 1.
+Proof. exact old_only_known_shape. Qed.
+Print Assumptions c17_old_violations_are_the_cached_shape.
+
+(* ---- non-vacuity ---- *)
+Definition ex_pod1 := mkPod 1 1 2 true.
+Definition ex_job := init_job false false 5 true 1 false false.
+(* a migration that evicts exactly once and succeeds *)
+Definition ex_happy : list op :=
+  [OSetPod (Some ex_pod1); OReconcile []; OSetRes (Some (mkRes true RP_AVAILABLE 2 SC_SCHEDULED false 1 0 false false));
+   OReconcile []; OSetPod None; OSetRes (Some (mkRes true RP_SUCCEEDED 2 SC_SCHEDULED false 1 2 false false));
+   OReconcile []; OReconcile []; OTick 9; OReconcile []].
+Example c17_ex_happy :
+  count_evicts (observe ex_job ex_happy) = 1%nat
+  /\ phase (o_job (last (observe ex_job ex_happy) (mkObs [] ex_job None))) = PH_SUCCEEDED
+  /\ no_faults ex_happy = true.
+Proof. vm_compute. repeat split. Qed.
+(* a job that times out after its reservation was created: the reservation is deleted *)
+Definition ex_timeout : list op :=
+  [OSetPod (Some ex_pod1); OReconcile []; OTick 7; OReconcile []].
+Example c17_ex_timeout :
+  map (fun o => (phase (o_job o), reason (o_job o), o_res o)) (observe ex_job ex_timeout)
+  = [(PH_PENDING, 0, None); (PH_RUNNING, 0, Some (true, 1)); (PH_RUNNING, 0, Some (true, 1)); (PH_FAILED, RS_TIMEOUT, None)].
+Proof. vm_compute. reflexivity. Qed.
+(* an eviction that is refused: reservation on the pod's own node *)
+Example c17_ex_same_node :
+  let ops := [OSetPod (Some ex_pod1); OReconcile [];
+              OSetRes (Some (mkRes true RP_AVAILABLE 1 SC_SCHEDULED false 1 0 false false)); OReconcile []] in
+  count_evicts (observe ex_job ops) = 0%nat
+  /\ reason (o_job (last (observe ex_job ops) (mkObs [] ex_job None))) = RS_FORBIDDEN.
+Proof. vm_compute. split; reflexivity. Qed.
